@@ -1,6 +1,8 @@
 GROUP = {
     # `emit` + `emit_core` with the `std` feature (alloc collections, proc-macros, runtime slots)
     "stub_sets": ["split_scanner"],
+    # std build: SAT instances of 10+ GB (measured); fewer solvers at once, more address space each
+    "mem_gb": 26, "max_jobs": 3,
     # assertion reach checks off (measured 2.5x faster): vacuity is guarded by kani::cover! in every harness and by the mutant twins
     "kani_args": ["-Z", "stubbing", "--no-assertion-reach-checks"],
     "recursion_caps": [(r"value_bag::internal::cast.*CastVisitor.*::fill", 3)],
